@@ -199,6 +199,33 @@ Qed.
 Lemma wf_bind_row : forall args v m, wf m -> wf (bind_row args v m).
 Proof. intros. unfold bind_row. apply wf_insert; auto. Qed.
 
+(* the rows BIND makes of one row *)
+Lemma ebind_spec : forall args v m0 m,
+  In m (ebind args v m0) <->
+  match econcat args m0 with
+  | None => m = m0
+  | Some c => match lookup m0 v with Some old => old = c /\ m = m0 | None => m = insert v c m0 end
+  end.
+Proof.
+  intros args v m0 m. unfold ebind. destruct (econcat args m0) as [c|]; [|cbn; intuition].
+  destruct (lookup m0 v) as [old|]; [|cbn; intuition].
+  destruct (term_eqb old c) eqn:E.
+  - apply term_eqb_eq in E. cbn. intuition.
+  - apply term_eqb_neq in E. cbn. intuition.
+Qed.
+Lemma wf_ebind : forall args v m0 m, wf m0 -> In m (ebind args v m0) -> wf m.
+Proof.
+  intros args v m0 m W H. apply ebind_spec in H. destruct (econcat args m0); [|subst; auto].
+  destruct (lookup m0 v); [destruct H; subst; auto | subst; apply wf_insert; auto].
+Qed.
+Lemma econcat_bound : forall args m, (forall x, In x (barg_vars args) -> lookup m x <> None) -> econcat args m <> None.
+Proof.
+  induction args as [|a r IH]; intros m H; cbn [econcat]; [discriminate|].
+  assert (Hr : econcat r m <> None) by (apply IH; intros x Hx; apply H; unfold barg_vars; cbn [flat_map]; apply in_or_app; right; exact Hx).
+  destruct (econcat r m); [|congruence]. destruct a as [y|c]; [|discriminate].
+  assert (Hy : lookup m y <> None) by (apply H; cbn; left; auto). destruct (lookup m y); [discriminate | congruence].
+Qed.
+
 Theorem sem_wf : forall st ev l active, all_wf (sem st ev active l).
 Proof.
   intros st ev l. induction l using lop_ind'; intros active.
@@ -212,7 +239,7 @@ Proof.
   - cbn [sem]. apply all_wf_filter. auto.
   - cbn [sem]. apply join_wf. auto.
   - cbn [sem]. apply finalize_subquery_wf. auto.
-  - cbn [sem]. apply all_wf_map; auto. intros; apply wf_bind_row; auto.
+  - cbn [sem]. apply all_wf_flat_map. intros m0 H0. apply Forall_forall. intros m Hm. eapply wf_ebind; [|exact Hm]. eapply all_wf_in; [apply IHl | exact H0].
   - cbn [sem]. unfold all_wf. apply Forall_forall. intros m Hm. apply in_map_iff in Hm.
     destruct Hm as (row & E & _). subst. apply wf_values_row.
 Qed.
@@ -394,9 +421,12 @@ Proof.
       destruct (ss_proj s) as [items|] eqn:Ep; [|discriminate S]. cbn [proj_vars option_map].
       destruct (finalize_in_restrict s _ (sem st ev active l) m (f_equal proj_vars Ep) Hm) as (m0 & E). subst m.
       rewrite lookup_restrict in L. destruct (mem_var x _) eqn:Ev; [|discriminate]. apply mem_var_in. exact Ev.
-  - cbn [sem poss ok_in] in *. apply andb_true_iff in OK. destruct OK as [OK _]. apply andb_true_iff in OK. destruct OK as [OK _].
-    apply in_map_iff in Hm. destruct Hm as (m0 & E & H0). subst m. unfold bind_row in L. rewrite lookup_insert in L.
-    destruct (N.eqb_spec v x); [left; auto | right; eapply IHl; eauto].
+  - cbn [sem poss ok_in] in *. apply andb_true_iff in OK. destruct OK as [OK _].
+    apply in_flat_map in Hm. destruct Hm as (m0 & H0 & Hm). apply ebind_spec in Hm.
+    assert (Base : forall t, lookup m0 x = Some t -> In x (v :: poss l)) by (intros t Lt; right; eapply IHl; eauto).
+    destruct (econcat args m0) as [c|]; [|subst m; eapply Base; eauto].
+    destruct (lookup m0 v) as [old|]; [destruct Hm as [_ ->]; eapply Base; eauto|].
+    subst m. rewrite lookup_insert in L. destruct (N.eqb_spec v x); [left; auto | eapply Base; eauto].
   - cbn [sem poss] in *. apply in_map_iff in Hm. destruct Hm as (row & E & _). subst. eapply lookup_values_row; eauto.
 Qed.
 
@@ -439,9 +469,20 @@ Proof.
     + apply inter_in in Hx. destruct Hx as [Hx1 Hx2]. rewrite lookup_restrict.
       rewrite (proj2 (mem_var_in x vs) Hx2). eapply IHl; eauto.
     + eapply IHl; eauto.
-  - cbn [sem cert ok_in] in *. apply andb_true_iff in OK. destruct OK as [OK _]. apply andb_true_iff in OK. destruct OK as [OK _].
-    apply in_map_iff in Hm. destruct Hm as (m0 & E & H0). subst m. unfold bind_row. rewrite lookup_insert.
-    destruct (N.eqb_spec v x); [discriminate|]. destruct Hx as [Hx|Hx]; [congruence|]. eapply IHl; eauto.
+  - cbn [sem cert ok_in] in *. apply andb_true_iff in OK. destruct OK as [OK _].
+    apply in_flat_map in Hm. destruct Hm as (m0 & H0 & Hm). apply ebind_spec in Hm.
+    assert (Base : forall y, In y (cert l) -> lookup m0 y <> None) by (intros y Hy; eapply IHl; eauto).
+    assert (Keep : forall y, lookup m0 y <> None -> lookup m y <> None).
+    { intros y Hy. destruct (econcat args m0) as [c|]; [|subst m; exact Hy].
+      destruct (lookup m0 v) as [old|]; [destruct Hm as [_ ->]; exact Hy|].
+      subst m. rewrite lookup_insert. destruct (N.eqb v y); [discriminate | exact Hy]. }
+    destruct (forallb (fun y => mem_var y (cert l)) (barg_vars args)) eqn:Ca; [|apply Keep; apply Base; exact Hx].
+    destruct Hx as [Hx|Hx]; [|apply Keep; apply Base; exact Hx]. subst x.
+    assert (Ne : econcat args m0 <> None).
+    { apply econcat_bound. intros y Hy. apply Base. rewrite forallb_forall in Ca. apply mem_var_in. apply Ca. exact Hy. }
+    destruct (econcat args m0) as [c|]; [|congruence].
+    destruct (lookup m0 v) as [old|] eqn:Lv; [destruct Hm as [_ ->]; rewrite Lv; discriminate|].
+    subst m. rewrite lookup_insert, N.eqb_refl. discriminate.
   - cbn [sem cert] in *. apply in_map_iff in Hm. destruct Hm as (row & E & Hr). subst.
     apply filter_In in Hx. destruct Hx as [_ Hx]. rewrite forallb_forall in Hx. specialize (Hx row Hr).
     destruct (lookup (values_row vs row) x); [discriminate | discriminate].
@@ -468,11 +509,9 @@ Proof.
   - cbn [ok_in] in *. apply andb_true_iff in OK. destruct OK as [OK1 OK2]. apply andb_true_iff. split; [eapply IHl1; eauto|].
     eapply IHl2; [|exact OK2]. intros y Hy. apply in_app_or in Hy. apply in_or_app. destruct Hy; auto.
   - exact OK.
-  - cbn [ok_in] in *. apply andb_true_iff in OK. destruct OK as [OK OK3]. apply andb_true_iff in OK. destruct OK as [OK1 OK2].
-    repeat (apply andb_true_iff; split).
+  - cbn [ok_in] in *. apply andb_true_iff in OK. destruct OK as [OK1 OK3].
+    apply andb_true_iff; split.
     + eapply IHl; eauto.
-    + apply negb_true_iff in OK2. apply negb_true_iff. destruct (mem_var v inb') eqn:E; auto.
-      rewrite (mem_var_incl v inb' inb I E) in OK2. discriminate.
     + eapply forallb_impl; [|exact OK3]. intros x Hx. apply orb_true_iff in Hx. apply orb_true_iff.
       destruct Hx as [Hx|Hx]; auto. right. apply negb_true_iff in Hx. apply negb_true_iff.
       destruct (mem_var x inb') eqn:E; auto. rewrite (mem_var_incl x inb' inb I E) in Hx. discriminate.
